@@ -27,6 +27,12 @@ type c09Cfg struct {
 	AccNil    bool     `json:"acc_nil"`
 	Kinds     []string `json:"kinds"` // handler kinds registered: get call auth new access
 	Queue     string   `json:"queue"` // "<default>" | "" | name
+	// Layout says where the handlers sit: "all" (a, a.$id and > carry every
+	// kind), "root" (only the service's root pattern "" has a handler),
+	// "below-literal"/"below-param" (Kinds sit on a.b / $x.b, below a resource
+	// whose own handler only has the Upper kinds).
+	Layout string   `json:"layout"`
+	Upper  []string `json:"upper,omitempty"`
 	reconnect bool
 }
 
@@ -72,6 +78,15 @@ func c09RandCfg(r *rand.Rand, idx int) c09Cfg {
 			cfg.Kinds = append(cfg.Kinds, k)
 		}
 	}
+	cfg.Layout = []string{"all", "root", "below-literal", "all", "below-param", "root", "all"}[(idx/3)%7]
+	if cfg.Layout == "root" && cfg.Name == "" {
+		cfg.Layout = "all" // a handler on the empty resource name is unreachable
+	}
+	if strings.HasPrefix(cfg.Layout, "below") {
+		if k := r.Intn(6); k < 5 {
+			cfg.Upper = []string{[]string{"get", "call", "auth", "new", "access"}[k]}
+		}
+	}
 	pick := func() []string {
 		n := r.Intn(4)
 		var l []string
@@ -107,7 +122,7 @@ func c09RandCfg(r *rand.Rand, idx int) c09Cfg {
 }
 
 func hasKind(cfg c09Cfg, ks ...string) bool {
-	for _, k := range cfg.Kinds {
+	for _, k := range append(append([]string{}, cfg.Kinds...), cfg.Upper...) {
 		for _, x := range ks {
 			if k == x {
 				return true
@@ -143,25 +158,47 @@ func expectedOwnership(cfg c09Cfg) (resources, access []string) {
 }
 
 func c09Configure(s *res.Service, cfg c09Cfg) {
-	var opts []res.Option
-	for _, k := range cfg.Kinds {
-		switch k {
-		case "get":
-			opts = append(opts, res.GetModel(func(r res.ModelRequest) { r.Model(map[string]int{"a": 1}) }))
-		case "call":
-			opts = append(opts, res.Call("*", func(r res.CallRequest) { r.OK(nil) }))
-		case "auth":
-			opts = append(opts, res.Auth("*", func(r res.AuthRequest) { r.OK(nil) }))
-		case "new":
-			opts = append(opts, res.New(func(r res.NewRequest) { r.New("svc.n.1") }))
-		case "access":
-			opts = append(opts, res.Access(res.AccessGranted))
+	mk := func(kinds []string) []res.Option {
+		var opts []res.Option
+		for _, k := range kinds {
+			opts = append(opts, c09KindOption(k))
 		}
+		return opts
 	}
-	// handlers somewhere below the service name and at its root
-	s.Handle("a", opts...)
-	s.Handle("a.$id", opts...)
-	s.Handle(">", opts...)
+	opts := mk(cfg.Kinds)
+	switch cfg.Layout {
+	case "root":
+		s.Handle("", opts...)
+	case "below-literal":
+		s.Handle("a", mk(cfg.Upper)...)
+		s.Handle("a.b", opts...)
+	case "below-param":
+		s.Handle("$x", mk(cfg.Upper)...)
+		s.Handle("$x.b", opts...)
+	default:
+		// handlers somewhere below the service name and at its root
+		s.Handle("a", opts...)
+		s.Handle("a.$id", opts...)
+		s.Handle(">", opts...)
+	}
+	c09Own(s, cfg)
+}
+
+func c09KindOption(k string) res.Option {
+	switch k {
+	case "get":
+		return res.GetModel(func(r res.ModelRequest) { r.Model(map[string]int{"a": 1}) })
+	case "call":
+		return res.Call("*", func(r res.CallRequest) { r.OK(nil) })
+	case "auth":
+		return res.Auth("*", func(r res.AuthRequest) { r.OK(nil) })
+	case "new":
+		return res.New(func(r res.NewRequest) { r.New("svc.n.1") })
+	}
+	return res.Access(res.AccessGranted)
+}
+
+func c09Own(s *res.Service, cfg c09Cfg) {
 	if !cfg.ResNil || !cfg.AccNil {
 		var rs, as []string
 		if !cfg.ResNil {
@@ -215,6 +252,9 @@ func c09CfgSig(cfg c09Cfg) string {
 	name := "named"
 	if cfg.Name == "" {
 		name = "noname"
+	}
+	if cfg.Layout != "all" && cfg.Layout != "" {
+		own += "/" + cfg.Layout
 	}
 	return name + "/" + own
 }
